@@ -274,6 +274,22 @@ def search(ctx):
         if act != want and stats["matrix_violations"] < 5:
             stats["matrix_violations"] += 1
             vios.append({"input": {"command": text, "config": o.cfg_text, "cwd": str(o.cwd)}, "observed": {"verdict": act, "reason": reason}, "required": f"verdict == most restrictive of the parts == {want}", "oracle": "max-of-parts(composition matrix)", "node_kind": "matrix"})
+    # a rule on `cd DIR` and a relative spelling of DIR: the cd at the head of a list is a part like any other (it is judged
+    # where the list is entered, not where it leads)
+    from dippy.core.analyzer import analyze as _an
+    from dippy.core.config import parse_config as _pc
+
+    cd_cfg = 'deny cd /tmp/probe/prod "no"\nask cd /tmp/probe/stage*\nallow ok1\n'
+    for cdcmd in ("cd ./prod", "cd prod/../prod", "cd ./stage1", "cd /tmp/probe/prod", "cd ./sub/../prod"):
+        alone = _an(cdcmd, _pc(cd_cfg), o.cwd)
+        for tmpl in ("{c} && ok1 a", "{c}; ok1 a", "{c} || ok1 a", "{{ {c}; ok1 a; }}", "( {c} && ok1 a )", "if true; then {c}; ok1 a; fi", "{c} && ok1 a; ok1 b", "echo $({c}; ok1 a)", "{c}\nok1 a"):
+            text = tmpl.format(c=cdcmd)
+            whole = _an(text, _pc(cd_cfg), o.cwd)
+            stats["leading_cd_cases"] += 1
+            if RANK[whole.action] < RANK[alone.action] and stats["leading_cd_violations"] < 3:
+                stats["leading_cd_violations"] += 1
+                vios.append({"input": {"command": text, "config": cd_cfg, "cwd": str(o.cwd)}, "observed": {"verdict": whole.action, "reason": whole.reason, "cd_alone": [alone.action, alone.reason]},
+                             "required": f"the part `{cdcmd}` is judged {alone.action} on its own: the list cannot be judged more leniently", "oracle": "max-of-parts(leading cd)", "node_kind": "list"})
     for i in range(n):
         p, t = g.program()
         self_out: list = []
